@@ -157,6 +157,10 @@ type world struct {
 
 	matAtom map[string]int
 	dekAtom map[string]int
+
+	storedKS  map[string]storedKeyset // id -> the keyset found (by decryption) in its last stored value
+	lastKS    *tinkpb.Keyset
+	lastAtoms []int
 	secrets []secret // tracked secret byte strings
 	hay     []hay    // everything the adversary sees
 	issued  []issuedID
@@ -269,7 +273,7 @@ func newLock(cfg string, masterKey []byte, protected, pass string, salt []byte) 
 }
 
 func newWorld(cfg string, r *hx.Rng) *world {
-	w := &world{cfg: cfg, matAtom: map[string]int{}, dekAtom: map[string]int{}, nonceID: map[string]int{}, seenPair: map[string]string{}}
+	w := &world{cfg: cfg, storedKS: map[string]storedKeyset{}, matAtom: map[string]int{}, dekAtom: map[string]int{}, nonceID: map[string]int{}, seenPair: map[string]string{}}
 	w.raw = mem.NewProvider()
 	w.rec = hx.NewRecProvider(w.raw)
 	w.rec.Before = func(c *hx.Call) error {
@@ -627,6 +631,8 @@ func (w *world) rebuild(pos int, op Op, value []byte) (term string, bad string) 
 	// keysetInfo, the cleartext member: parsed strictly (no member the schema does not have) and compared, field by
 	// field, with the keys of the keyset just decrypted: descriptor i must be exactly the public description of key i
 	// (type URL, status, Tink key id, output prefix type), the primary key id the keyset's
+	w.lastKS, w.lastAtoms = ks, atoms
+
 	infoT, infoBad := rebuildInfo(doc["keysetInfo"], ks, atoms)
 	if infoBad != "" && bad == "" {
 		bad = infoBad
@@ -798,6 +804,7 @@ type Op struct {
 type Obs struct {
 	OK     bool     `json:"ok"`
 	Writes []string `json:"writes"` // rebuilt terms
+	Outs   []string `json:"outs"`   // ids / exported public keys returned, as rebuilt terms
 	Bad    string   `json:"bad,omitempty"`
 	Worked bool     `json:"worked,omitempty"` // importbad: accepted; box: the CryptoBox call succeeded
 }
@@ -1149,8 +1156,14 @@ func (w *world) apply(pos int, op Op, r *hx.Rng) Obs {
 			continue
 		}
 
+		w.lastKS = nil
+
 		t, bad := w.rebuild(pos, op, c.Value)
 		obs.Writes = append(obs.Writes, t)
+
+		if w.lastKS != nil {
+			w.storedKS[c.Key] = storedKeyset{w.lastKS, w.lastAtoms}
+		}
 
 		if bad != "" && obs.Bad == "" {
 			obs.Bad = bad
@@ -1159,6 +1172,29 @@ func (w *world) apply(pos int, op Op, r *hx.Rng) Obs {
 
 	if obs.Writes == nil {
 		obs.Writes = []string{}
+	}
+
+	// the non-opaque API results as terms (outs.go)
+	obs.Outs = []string{}
+
+	if err == nil {
+		switch op.Kind {
+		case "create", "rotate":
+			obs.Outs = append(obs.Outs, w.idTerm(id, kt, pos, ""))
+		case "createx":
+			obs.Outs = append(obs.Outs, w.idTerm(id, kt, pos, ""), w.pubTerm(id, pub))
+		case "import":
+			chosen := ""
+			if op.UID {
+				chosen = fmt.Sprintf("imported-%d", pos)
+			}
+
+			obs.Outs = append(obs.Outs, w.idTerm(id, kt, pos, chosen))
+		case "importbad":
+			obs.Outs = append(obs.Outs, w.idTerm(id, kt, pos, ""))
+		case "export":
+			obs.Outs = append(obs.Outs, w.pubTerm(w.issued[op.Ref].id, pub))
+		}
 	}
 
 	return obs
@@ -1335,9 +1371,10 @@ func coqOp(op Op, pos int, o Obs) string {
 	case "createx":
 		return "CreateExport " + asym
 	case "import":
-		return fmt.Sprintf("Import %d", importAtom(pos))
+		// thumb: an input — no id requested and the key type exports its public key
+		return fmt.Sprintf("Import %d %s", importAtom(pos), hx.CoqBool(!op.UID && op.KT != "ECDSASecp256k1DER"))
 	case "importbad":
-		return fmt.Sprintf("ImportTry %d %s", importAtom(pos), hx.CoqBool(o.Worked))
+		return fmt.Sprintf("ImportTry %d %s %s", importAtom(pos), hx.CoqBool(o.Worked), hx.CoqBool(op.KT != "ECDSASecp256k1DER"))
 	case "box":
 		return fmt.Sprintf("Box %d%%nat %s", op.Ref, hx.CoqBool(o.Worked))
 	case "rotate":
@@ -1380,7 +1417,7 @@ func runHistory(kind, cfg string, ops []Op, r *hx.Rng, tr *hx.Trace) {
 		o := w.apply(i, op, r.Fork(uint64(1000+i)))
 		obs = append(obs, o)
 		coqOps = append(coqOps, coqOp(op, i, o))
-		coqObs = append(coqObs, "("+hx.CoqList(o.Writes)+", "+hx.CoqBool(o.OK)+")")
+		coqObs = append(coqObs, "("+hx.CoqList(o.Writes)+", "+hx.CoqList(o.Outs)+", "+hx.CoqBool(o.OK)+")")
 		class = append(class, fmt.Sprintf("%s/%s/%v/%d", op.Kind, op.KT, o.OK, len(o.Writes)))
 		nWrites += len(o.Writes)
 
